@@ -7,15 +7,15 @@ from .. import common as C
 from ..runner import run_given
 
 PROPERTY = 'C11'
-RULE = ("bin()/hex()/base_repr() of an object holding a given code vs string images built by the model with Python's format(); options frac_dot, binary prefix None/'0b'/'b', bases 2/8/10/16. "
+RULE = ("bin()/hex()/base_repr() of an object holding a given code vs string images built by the model with Python's format(); options frac_dot, binary prefix None/'0b'/'b', bases 2/8/10/16; bin/hex prefixes selected through the configuration (each value the Config setters list), scalar and array. "
         "Round trip (n_word>=2): the library's own rendering AND the model's rendering are fed back through the constructor, call, set_val, from_bin method and fxpmath.from_bin, in value mode (n_word<=53, "
         "with and without binary point) and raw=True mode (every n_word); the restored code must equal the original. Generated: every code of every format with n_word<=8 and every n_frac 0..n_word; boundary and "
         "random codes for n_word in {15,16,17,31,32,33,53,63,64,65,100,128,256} and random widths; scalars, 1-d and 2-d arrays. Non-trivial = negative code, or n_word not a multiple of 4, or n_frac in {0, n_word}; "
         "distinct = distinct (format, code/array, option) keys.")
-ASSUMPTIONS = ['objects are created from raw codes', 'signed formats need n_word>=2 for parsing (a 1-bit signed literal is rejected by the parser by design)']
+ASSUMPTIONS = ['objects are created from raw codes', 'signed formats need n_word>=2 for parsing (a 1-bit signed literal is rejected by the parser by design)', "strings are fed back with the prefixes the parser documents ('0b', '0x') or bare through from_bin; upper-case / 'h' prefixes are rendering options only (the parser rejects them with ValueError)"]
 EXHAUSTIVE = False    # the whole quantifier is not enumerated; complete sub-domains are listed in EXHAUSTIVE_SUBDOMAINS
 EXHAUSTIVE_SUBDOMAINS = {'quick': ['all codes x all n_frac 0..n_word for n_word<=8, both signednesses: rendering + all parse routes'], 'thorough': ['same for n_word<=10']}
-REQUIRED_CLASSES = {'negative': 500, 'wide>=64': 200, 'array': 200, 'array2d': 50, 'array:w54-63': 30}
+REQUIRED_CLASSES = {'negative': 500, 'wide>=64': 200, 'array': 200, 'array2d': 50, 'array:w54-63': 30, 'configured-prefix': 500}
 WIDTHS = [15, 16, 17, 31, 32, 33, 53, 63, 64, 65, 100, 128, 256]
 
 
@@ -72,6 +72,22 @@ def check_scalar(ctx, case):
         return
     if not render_checks(ctx, case, x, fmt, k, sig):
         return
+    # prefixes selected through the configuration (every value the Config setters list as usual), scalar and 1-d array
+    bp, hp = case.get('bin_prefix', None), case.get('hex_prefix', '0x')
+    if case.get('cfg_prefix'):
+        def cfg():
+            xs = F(k, s, w, f, raw=True, bin_prefix=bp, hex_prefix=hp)
+            xa = F(np.array([k, 0], dtype=object if w > 62 else np.int64), s, w, f, raw=True, bin_prefix=bp, hex_prefix=hp)
+            return xs.bin(), xs.hex(), xs.bin(frac_dot=True), to_plain(xa.bin()), to_plain(xa.hex())
+        ok, got = ctx.guard(case, cfg, sig_prefix=sig + '/render-configured-prefix/')
+        if not ok:
+            return
+        b0, h0 = M.bin_image(k, w), M.hex_image(k, w, prefix='')
+        z0, zh = M.bin_image(0, w), M.hex_image(0, w, prefix='')
+        want = ((bp or '') + b0, (hp or '') + h0, (bp or '') + M.bin_image(k, w, n_frac=f), [(bp or '') + b0, (bp or '') + z0], [(hp or '') + h0, (hp or '') + zh])
+        if tuple(got) != want:
+            ctx.fail(sig + '/render-configured-prefix', case, {'expected': list(want), 'got': list(got)})
+            return
     if w < 2:
         return
     lib_bin, lib_hex, lib_dot = x.bin(), x.hex(), x.bin(frac_dot=True)
@@ -228,7 +244,11 @@ def st_code_wide(draw, fmt):
 @st.composite
 def st_scalar(draw):
     fmt = draw(st_fmt_wide())
-    return {'check': 'scalar', 'fmt': list(fmt), 'k': draw(st_code_wide(fmt))}
+    case = {'check': 'scalar', 'fmt': list(fmt), 'k': draw(st_code_wide(fmt))}
+    if draw(st.integers(0, 2)) == 0:
+        case.update(cfg_prefix=True, bin_prefix=draw(st.sampled_from([None, 'b', '0b', 'B', '0B'])),
+                    hex_prefix=draw(st.sampled_from([None, 'x', '0x', 'X', '0X', 'h', '0h', 'H', '0H'])))
+    return case
 
 
 def body_scalar(ctx, case):
@@ -238,6 +258,8 @@ def body_scalar(ctx, case):
         ctx.cls('negative')
     if fmt[1] >= 64:
         ctx.cls('wide>=64')
+    if case.get('cfg_prefix'):
+        ctx.cls('configured-prefix')
     nt = k < 0 or fmt[1] % 4 != 0 or fmt[2] in (0, fmt[1])
     if nt:
         ctx.nontrivial(('scalar', fmt, k))
